@@ -94,7 +94,10 @@ func (m *c13Model) enabled() []c13Op {
 						ops = append(ops, c13Op{Op: "unalias", Org: org, Index: ix, Alias: al})
 					}
 				}
-				ops = append(ops, c13Op{Op: "delete", Org: org, Index: ix})
+				if !isAlias {
+					// deleting a name that is an index and an alias at once: which of the two is meant is not defined
+					ops = append(ops, c13Op{Op: "delete", Org: org, Index: ix})
+				}
 			}
 		}
 		if len(m.Events[org]) > 0 {
@@ -336,6 +339,18 @@ func c13Run(w *kernel.Worker, j *c13Job, rep *kernel.Report) (*Fail, error) {
 					if ac := c13AliasClass(m, d.org, d.expr); ac != "" {
 						cls = ac
 					}
+					switch c13NameWasAlias(j.Path, m, d.org, d.expr) {
+					case "unalias":
+						// own class: an alias that lost its last target must not keep shadowing an index of the same name
+						cls = "index-whose-name-was-an-alias-until-the-alias-lost-its-last-target"
+					case "deleted-target":
+						rep.Add("not_asserted_alias_of_deleted_index_shares_name_with_index", 1)
+						continue
+					}
+					if c13OtherOrgDeleted(j.Path, d.org) {
+						// one root cause with its own class: deleting an index removes the data of the same-named index of the other organisation
+						cls = "after-the-other-organisation-deleted-an-index-of-the-same-name"
+					}
 					fs.Add("C13/missing/"+cls, ctx(d)+fmt.Sprintf(": %s not returned; got %v, expected %v", id, sortedKeys(got), sortedKeys(must)))
 				}
 			}
@@ -353,7 +368,11 @@ func c13Run(w *kernel.Worker, j *c13Job, rep *kernel.Report) (*Fail, error) {
 			if lastIDs != nil && n != int64(len(lastIDs)) {
 				// only an alarm if it breaks the bounds of the model
 				if n < int64(len(must)) || n > int64(len(may)) {
-					fs.Add("C13/count-outside-model/"+c13ExprClass(d.expr), ctx(d)+fmt.Sprintf(": stats count = %d, model allows %d..%d", n, len(must), len(may)))
+					ccls := c13ExprClass(d.expr)
+					if n < int64(len(must)) && c13OtherOrgDeleted(j.Path, d.org) {
+						ccls = "after-the-other-organisation-deleted-an-index-of-the-same-name"
+					}
+					fs.Add("C13/count-outside-model/"+ccls, ctx(d)+fmt.Sprintf(": stats count = %d, model allows %d..%d", n, len(must), len(may)))
 				}
 			}
 		}
@@ -371,6 +390,74 @@ func c13AliasClass(m *c13Model, org int64, expr string) string {
 			if p == al || (strings.Contains(p, "*") && globMatch(p, al)) {
 				return "alias-of-org≠0"
 			}
+		}
+	}
+	return ""
+}
+
+// c13OtherOrgDeleted: the path contains a delete by the other organisation that names (or matches) an index this
+// organisation has ingested into before.
+func c13OtherOrgDeleted(path []c13Op, org int64) bool {
+	mine := map[string]bool{}
+	for _, o := range path {
+		if o.Op == "ingest" && o.Org == org {
+			mine[o.Index] = true
+		}
+		if o.Op == "delete" && o.Org != org {
+			for ix := range mine {
+				if ix == o.Index || (strings.Contains(o.Index, "*") && globMatch(o.Index, ix)) {
+					return true
+				}
+			}
+		}
+	}
+	return false
+}
+
+// c13NameWasAlias: a part of the expression names an index of org whose name was also an alias name earlier on the
+// path, and that alias does not exist any more in the model. Returns "unalias" if its last target was taken away by an
+// explicit alias removal, "deleted-target" if the target index was deleted while the alias still pointed to it (whether
+// an alias survives the deletion of its index is not defined, and with it which reading the shared name has).
+func c13NameWasAlias(path []c13Op, m *c13Model, org int64, expr string) string {
+	for _, part := range strings.Split(expr, ",") {
+		if _, isIdx := m.Events[org][part]; !isIdx {
+			continue
+		}
+		if _, still := m.Aliases[org][part]; still {
+			continue
+		}
+		targets := map[string]bool{}
+		how := ""
+		for _, o := range path {
+			if o.Org != org {
+				continue
+			}
+			switch o.Op {
+			case "alias":
+				if o.Alias == part {
+					targets[o.Index] = true
+					how = ""
+				}
+			case "unalias":
+				if o.Alias == part {
+					delete(targets, o.Index)
+					if len(targets) == 0 {
+						how = "unalias"
+					}
+				}
+			case "delete":
+				for t := range targets {
+					if t == o.Index || (strings.Contains(o.Index, "*") && globMatch(o.Index, t)) {
+						delete(targets, t)
+						if len(targets) == 0 {
+							how = "deleted-target"
+						}
+					}
+				}
+			}
+		}
+		if how != "" {
+			return how
 		}
 	}
 	return ""
@@ -407,11 +494,16 @@ func c13States(depth int) [][]c13Op {
 				nm := n.m.clone()
 				nm.apply(o)
 				k := nm.canon()
+				p := append(append([]c13Op{}, n.path...), o)
 				if seen[k] {
+					// the model state is not new, but the implementation got there another way (e.g. alias added and
+					// removed again): the transition is still executed and judged, it is only not expanded further
+					if o.Op == "unalias" || o.Op == "delete" || o.Op == "alias" {
+						out = append(out, p)
+					}
 					continue
 				}
 				seen[k] = true
-				p := append(append([]c13Op{}, n.path...), o)
 				next = append(next, node{nm, p})
 				out = append(out, p)
 			}
